@@ -2173,6 +2173,8 @@ func writtenInTheCurrentFormat(c *Ctx, r *Report, rule string) {
 				if len(call.Args) == 1 {
 					if tv, ok := ce.Pkg.TypesInfo.Types[call.Args[0]]; ok && tv.Value != nil {
 						f["v|"+tv.Value.ExactString()] = true
+					} else if fixedVersionExpr(p, ce, call.Args[0]) {
+						f["v|fixed"] = true
 					} else {
 						for k := range f {
 							if strings.HasPrefix(k, "v|") {
@@ -2241,6 +2243,19 @@ func dispatcherWaitsBeforeLeaving(c *Ctx, r *Report, rule string) {
 					if se, ok := ast.Unparen(call.Fun).(*ast.SelectorExpr); ok && se.Sel.Name == "Wait" {
 						waits = true
 					}
+					// … or the wait sits in a helper of the fetcher
+					if cf := p.Callee(pq, call); cf != nil && p.firstParty(cf.Pkg()) {
+						if h := p.ByObj[cf]; h != nil && h.Body != nil {
+							walkNoLit(h.Body, func(k ast.Node) bool {
+								if c2, ok := k.(*ast.CallExpr); ok {
+									if s2, ok := ast.Unparen(c2.Fun).(*ast.SelectorExpr); ok && s2.Sel.Name == "Wait" {
+										waits = true
+									}
+								}
+								return true
+							})
+						}
+					}
 				}
 				return true
 			})
@@ -2266,4 +2281,31 @@ func dispatcherWaitsBeforeLeaving(c *Ctx, r *Report, rule string) {
 		return true
 	})
 	r.Floor(rule, "dispatch loops of the fetcher", n, 1)
+}
+
+// fixedVersionExpr: a version that does not come from the entry or the caller — a package-level variable or
+// constant, or a call without arguments.
+func fixedVersionExpr(p *Prog, fn *Fn, e ast.Expr) bool {
+	switch x := ast.Unparen(e).(type) {
+	case *ast.Ident:
+		if o := p.ObjOf(fn, x); o != nil && o.Parent() == o.Pkg().Scope() {
+			return true
+		}
+	case *ast.SelectorExpr:
+		if id, ok := x.X.(*ast.Ident); ok {
+			if _, isPkg := p.ObjOf(fn, id).(*types.PkgName); isPkg {
+				return true
+			}
+		}
+	case *ast.CallExpr:
+		if len(x.Args) == 0 {
+			if _, isSel := ast.Unparen(x.Fun).(*ast.SelectorExpr); !isSel {
+				return true
+			}
+		}
+		if tv, ok := fn.Pkg.TypesInfo.Types[x.Fun]; ok && tv.IsType() && len(x.Args) == 1 {
+			return fixedVersionExpr(p, fn, x.Args[0])
+		}
+	}
+	return false
 }
